@@ -42,7 +42,7 @@ def check(ctx):
     ctx.guard(r044_thresholder, ctx)
     ctx.guard(r045_counts, ctx)
     ctx.guard(sweep_structure, ctx, "R04.5")
-
+    ctx.guard(_shared_c04, ctx)
 
 def _analysis(ctx):
     return Analysis(ctx, no_inline=[TCURVE, INTERP, REFORMAT, IT + ".__init__", IT + ".fit"], max_depth=2)
@@ -454,3 +454,14 @@ def sweep_structure(ctx, rule):
         and A2.eq(ret.args[0][1], A2.spec("list(S[K])", {"S": srt, "K": A2.entry(rs, "LABEL_KEY"), "list": glob("builtins.list")}))
     ctx.ob(rule, rs.func, None, oks, "scores and labels are read from the same frame sorted by descending score",
            construct="sweep ordering")
+
+
+def _shared_c04(ctx):
+    """Life-cycle (history independence, pure prediction) and label-position clauses of the estimator(s) this property
+    is about, shared with C19 R19.3/R19.4 and C12 R12.1 and reported under this property's rule ids."""
+    from .c12 import label_sinks
+    from .c19 import lifecycle_of
+    ctx.rule("R04.6", "fit does not depend on state left by an earlier fit and prediction writes no state (shared with C19 R19.3 / R19.4)")
+    lifecycle_of(ctx, [TO, IT], {"R19.3": "R04.6", "R19.4": "R04.6"})
+    ctx.rule("R04.7", "no caller-labelled pandas value reaches a label-aligning operation on the paths of this property (shared with C12 R12.1)")
+    label_sinks(ctx, "R04.7", [(TO + ".fit", TO), (IT + "._pmf_predict", IT)])
